@@ -18,9 +18,10 @@ import PyFatModel.Proofs.FsFat
 import PyFatModel.Proofs.FsRefine
 import PyFatModel.Proofs.FsSync
 import PyFatModel.Proofs.FsShape
+import PyFatModel.Proofs.FsHint
 
 namespace Proofs.FsInv
-open Model.Fs Model.Alloc Proofs.FatRep Proofs.FatMachine Proofs.FsTree Proofs.FsFat Proofs.FsSync Proofs.FsShape
+open Model.Fs Model.Alloc Proofs.FatRep Proofs.FatMachine Proofs.FsTree Proofs.FsFat Proofs.FsSync Proofs.FsShape Proofs.FsHint
 
 /-! ## tree surgery -/
 
@@ -205,6 +206,7 @@ structure VolOK (v : Vol) (count : Nat) : Prop where
 structure InvX (v : Vol) (count : Nat) (s : St) (ex : Option Nat) (extra : List (List Nat)) : Prop where
   tree : TreeInv s.nodes
   rep : FatRep v.p count s.fat (extra ++ own s.rootChain s.nodes)
+  hintOK : HintOK v.p v.bound s.fat s.hint
   rootFixed : v.fixedRoot = true → s.rootChain = []
   rootChain : v.fixedRoot = false → s.rootChain ≠ []
   dirs : ∀ d ∈ s.nodes, d.isDir = true → d.chain ≠ []
@@ -215,12 +217,12 @@ abbrev Inv (v : Vol) (count : Nat) (s : St) : Prop := InvX v count s none []
 
 theorem InvX.weaken {v : Vol} {count : Nat} {s : St} {extra : List (List Nat)} (h : InvX v count s none extra) (ex : Option Nat) :
     InvX v count s ex extra :=
-  ⟨h.tree, h.rep, h.rootFixed, h.rootChain, h.dirs, fun _ => h.fitsRoot (by simp), fun d hd hdd _ => h.fitsDir d hd hdd (by simp)⟩
+  ⟨h.tree, h.rep, h.hintOK, h.rootFixed, h.rootChain, h.dirs, fun _ => h.fitsRoot (by simp), fun d hd hdd _ => h.fitsDir d hd hdd (by simp)⟩
 
 /-- the invariant does not look at the device copies -/
 theorem InvX.congr {v : Vol} {count : Nat} {s s' : St} {ex : Option Nat} {extra : List (List Nat)} (h : InvX v count s ex extra)
-    (e1 : s'.fat = s.fat) (e2 : s'.rootChain = s.rootChain) (e3 : s'.nodes = s.nodes) : InvX v count s' ex extra := by
-  refine ⟨by rw [e3]; exact h.tree, by rw [e1, e2, e3]; exact h.rep, by rw [e2]; exact h.rootFixed,
+    (e1 : s'.fat = s.fat) (e0 : s'.hint = s.hint) (e2 : s'.rootChain = s.rootChain) (e3 : s'.nodes = s.nodes) : InvX v count s' ex extra := by
+  refine ⟨by rw [e3]; exact h.tree, by rw [e1, e2, e3]; exact h.rep, by rw [e1, e0]; exact h.hintOK, by rw [e2]; exact h.rootFixed,
     by rw [e2]; exact h.rootChain, by rw [e3]; exact h.dirs, by rw [e2, e3]; exact h.fitsRoot, by rw [e3]; exact h.fitsDir⟩
 
 theorem clus_of_chain {n : Node} {c : Nat} {rest : List Nat} (h : n.chain = c :: rest) : n.clus = c := by
@@ -293,7 +295,7 @@ theorem updateDir_inv {v : Vol} {count : Nat} (hv : VolOK v count) {s : St} {loc
       · rename_i hle
         simp only [Except.ok.injEq] at hu
         subst hu
-        refine ⟨h.tree, h.rep, h.rootFixed, h.rootChain, h.dirs, fun _ => ?_, fun d hd hdd _ => h.fitsDir d hd hdd (dirNe0 d hd hdd)⟩
+        refine ⟨h.tree, h.rep, h.hintOK, h.rootFixed, h.rootChain, h.dirs, fun _ => ?_, fun d hd hdd _ => h.fitsDir d hd hdd (dirNe0 d hd hdd)⟩
         simp only [hfix, ↓reduceIte]
         simp only [Nat.not_lt] at hle
         exact hle
@@ -309,6 +311,7 @@ theorem updateDir_inv {v : Vol} {count : Nat} (hv : VolOK v count) {s : St} {loc
           rw [own_root, opt_of_ne hrne]
           exact List.perm_middle
         obtain ⟨rep', _, hlen, hfit, _⟩ := growChain_rep hv.params hv.bound hbpc (fatRep_perm p1 h.rep) hg
+        have hh' := growChain_hint hv.params hv.bound hbpc (fatRep_perm p1 h.rep) h.hintOK hg
         have hc'ne : c' ≠ [] := by
           intro e; rw [e] at hlen
           have : s.rootChain.length = 0 := by simpa using hlen
@@ -316,7 +319,7 @@ theorem updateDir_inv {v : Vol} {count : Nat} (hv : VolOK v count) {s : St} {loc
         have p2 : (c' :: (extra ++ own [] s.nodes)).Perm (extra ++ own c' s.nodes) := by
           rw [own_root c', opt_of_ne hc'ne]
           exact List.perm_middle.symm
-        refine ⟨h.tree, fatRep_perm p2 rep', (fun (hf : v.fixedRoot = true) => by rw [hfix'] at hf; cases hf), fun _ => hc'ne, h.dirs, fun _ => ?_,
+        refine ⟨h.tree, fatRep_perm p2 rep', hh', (fun (hf : v.fixedRoot = true) => by rw [hfix'] at hf; cases hf), fun _ => hc'ne, h.dirs, fun _ => ?_,
           fun d hd hdd _ => h.fitsDir d hd hdd (dirNe0 d hd hdd)⟩
         simp only [hfix', Bool.false_eq_true, ↓reduceIte]
         exact hfit
@@ -334,6 +337,7 @@ theorem updateDir_inv {v : Vol} {count : Nat} (hv : VolOK v count) {s : St} {loc
         rw [opt_of_ne hdne] at this
         exact (List.Perm.append_left extra this).trans List.perm_middle
       obtain ⟨rep', hhead, hlen, hfit, _⟩ := growChain_rep hv.params hv.bound hbpc (fatRep_perm p1 h.rep) hg
+      have hh' := growChain_hint hv.params hv.bound hbpc (fatRep_perm p1 h.rep) h.hintOK hg
       have hc'ne : c' ≠ [] := by
         intro e; rw [e] at hlen
         have : d.chain.length = 0 := by simpa using hlen
@@ -356,7 +360,7 @@ theorem updateDir_inv {v : Vol} {count : Nat} (hv : VolOK v count) {s : St} {loc
         have := own_replace s.rootChain (new := ({ d with chain := c' } : Node)) hnd hd
         simp only [opt_of_ne hc'ne] at this
         exact (List.perm_middle.symm).trans (List.Perm.append_left extra this.symm)
-      refine ⟨treeInv_replace h.tree d _ hskel, fatRep_perm p2 rep', h.rootFixed, h.rootChain, ?_, fun _ => ?_, ?_⟩
+      refine ⟨treeInv_replace h.tree d _ hskel, fatRep_perm p2 rep', hh', h.rootFixed, h.rootChain, ?_, fun _ => ?_, ?_⟩
       · intro x hx hxd
         rcases mem_replace hx with rfl | ⟨hx', _⟩
         · exact hc'ne
@@ -428,21 +432,21 @@ theorem updateDir_irrel (v : Vol) (s : St) (nodes : List Node) (loc : Loc) :
   unfold updateDir; rfl
 
 theorem flush_inv {v : Vol} {count : Nat} {s : St} {ex : Option Nat} {extra : List (List Nat)} (h : InvX v count s ex extra) :
-    InvX v count (flush s) ex extra := h.congr rfl rfl rfl
+    InvX v count (flush s) ex extra := h.congr rfl rfl rfl rfl
 
 /-- appending a fresh entry under `ploc`: everything but `ploc`'s size is in order -/
 theorem invX_append {v : Vol} {count : Nat} (hv : VolOK v count) {s : St} (h : Inv v count s) (n : Node) (ploc : Loc) (dir : List Nat)
     (hl : LocAt s.nodes ploc dir) (hpd : ploc.isDir = true) (hpar : n.parent = ploc.id) (hpath : n.path = dir ++ [n.key])
     (hfresh : ∀ x ∈ s.nodes, x.path ≠ n.path)
     (fat' : List Nat) (hint' : Nat)
-    (hrep : FatRep v.p count fat' (opt n.chain ++ own s.rootChain s.nodes))
+    (hrep : FatRep v.p count fat' (opt n.chain ++ own s.rootChain s.nodes)) (hh : HintOK v.p v.bound fat' hint')
     (hdir : n.isDir = true → n.chain ≠ [] ∧ 64 ≤ n.chain.length * v.bpc ∧ n.clus ≠ 0 ∧
       (∀ d ∈ s.nodes, d.isDir = true → d.clus ≠ n.clus)) :
     InvX v count { s with fat := fat', hint := hint', nodes := s.nodes ++ [n] } (some ploc.id) [] := by
   have hidne : ∀ d ∈ s.nodes, d.isDir = true → some ploc.id ≠ some d.clus → n.parent ≠ d.clus := by
     intro d _ _ hne e
     exact hne (by rw [← hpar, e])
-  refine ⟨?_, ?_, h.rootFixed, h.rootChain, ?_, ?_, ?_⟩
+  refine ⟨?_, ?_, hh, h.rootFixed, h.rootChain, ?_, ?_, ?_⟩
   · exact treeInv_append h.tree n ploc dir hl hpd hpar hpath hfresh (fun hd => ⟨(hdir hd).2.2.1, (hdir hd).2.2.2⟩)
   · simp only [List.nil_append]
     exact fatRep_perm (own_append s.rootChain s.nodes n).symm hrep
@@ -499,11 +503,11 @@ theorem not_soft_ok (b : Bool) : ¬ Proofs.FsRefine.Soft (.ok b) := by
 /-- replacing a file entry by one at the same place (other chain, other size) -/
 theorem invX_replace_file {v : Vol} {count : Nat} {s : St} (h : Inv v count s) (f f' : Node) (hf : f ∈ s.nodes)
     (hfd : f.isDir = false) (hs : SameSkel f' f) (fat' : List Nat) (hint' : Nat)
-    (hrep : FatRep v.p count fat' (opt f'.chain ++ own s.rootChain (s.nodes.erase f))) :
+    (hrep : FatRep v.p count fat' (opt f'.chain ++ own s.rootChain (s.nodes.erase f))) (hh : HintOK v.p v.bound fat' hint') :
     InvX v count { s with fat := fat', hint := hint', nodes := replaceNode s.nodes f f' } none [] := by
   have hf'd : f'.isDir = false := by rw [hs.2.2.2.1]; exact hfd
   have hnd := nodup_of_tree h.tree
-  refine ⟨treeInv_replace h.tree f f' hs, ?_, h.rootFixed, h.rootChain, ?_, fun _ => ?_, ?_⟩
+  refine ⟨treeInv_replace h.tree f f' hs, ?_, hh, h.rootFixed, h.rootChain, ?_, fun _ => ?_, ?_⟩
   · simp only [List.nil_append]
     exact fatRep_perm (own_replace s.rootChain hnd hf).symm hrep
   · intro x hx hxd
@@ -572,14 +576,14 @@ theorem updateDir_fits_good {v : Vol} {count : Nat} {s : St} {loc : Loc} {extra 
     ∃ s2, updateDir v s s.nodes loc = .ok s2 ∧ InvX v count s2 none extra ∧ s2.fat = s.fat ∧ s2.hint = s.hint ∧
       s2.rootChain = s.rootChain ∧ s2.nodes = s.nodes ∧ s2.dfat = s.dfat := by
   obtain ⟨s2, hu, e1, e2, e3, e4, e5⟩ := updateDir_of_fits h hloc
-  exact ⟨s2, hu, h.congr e1 e3 e4, e1, e2, e3, e4, e5⟩
+  exact ⟨s2, hu, h.congr e1 e2 e3 e4, e1, e2, e3, e4, e5⟩
 
 /-- an entry without children can go: what is left fits everywhere, its chain is the only thing left over -/
 theorem invX_erase {v : Vol} {count : Nat} {s : St} (h : Inv v count s) (n : Node) (hn : n ∈ s.nodes)
     (hch : n.isDir = true → ∀ x ∈ s.nodes, x.parent ≠ n.clus) :
     InvX v count { s with nodes := s.nodes.erase n } none (opt n.chain) := by
   have sub : ∀ x, x ∈ s.nodes.erase n → x ∈ s.nodes := fun x hx => List.mem_of_mem_erase hx
-  refine ⟨treeInv_erase h.tree n hch, ?_, h.rootFixed, h.rootChain, fun d hd => h.dirs d (sub d hd), fun _ => ?_, ?_⟩
+  refine ⟨treeInv_erase h.tree n hch, ?_, h.hintOK, h.rootFixed, h.rootChain, fun d hd => h.dirs d (sub d hd), fun _ => ?_, ?_⟩
   · exact fatRep_perm (own_erase s.rootChain hn) (by simpa using h.rep)
   · have := h.fitsRoot (by simp)
     have hle := childSlots_erase_le s.nodes n 0
@@ -614,7 +618,7 @@ theorem removeEntry_good {v : Vol} {count : Nat} (hv : VolOK v count) {s : St} (
   · rename_i hc
     refine ⟨?_, fun hs => absurd hs (not_soft_ok _), fun hs => ⟨rfl, hdisk hs⟩, hshape⟩
     have hrep := release_rep hv.params hi2.rep hc
-    exact ⟨hi2.tree, by simpa [flush, release] using hrep, hi2.rootFixed, hi2.rootChain, hi2.dirs, hi2.fitsRoot, hi2.fitsDir⟩
+    exact ⟨hi2.tree, by simpa [flush, release] using hrep, release_hint n.chain hi2.hintOK, hi2.rootFixed, hi2.rootChain, hi2.dirs, hi2.fitsRoot, hi2.fitsDir⟩
 
 theorem find_none_fresh {nodes : List Node} {q : List Nat} (h : nodes.find? (fun n => n.path == q) = none) :
     ∀ x ∈ nodes, x.path ≠ q := by
@@ -647,9 +651,9 @@ theorem create_good {v : Vol} {count : Nat} (hv : VolOK v count) {s : St} (h : I
           simp only
           rw [updateDir_irrel]
           have hx := invX_append hv h ⟨dir ++ [k], ploc.id, k, false, [], 0, slots⟩ ploc dir hl hpd rfl rfl
-            (find_none_fresh hf) s.fat s.hint (by simpa [opt] using h.rep) (by simp)
+            (find_none_fresh hf) s.fat s.hint (by simpa [opt] using h.rep) h.hintOK (by simp)
           have hx' : InvX v count { s with nodes := s.nodes ++ [⟨dir ++ [k], ploc.id, k, false, [], 0, slots⟩] } (some ploc.id) [] :=
-            hx.congr rfl rfl rfl
+            hx.congr rfl rfl rfl rfl
           split
           · exact good_same h _
           · rename_i s2 hu
@@ -682,15 +686,20 @@ theorem create_good {v : Vol} {count : Nat} (hv : VolOK v count) {s : St} (h : I
                 · rename_i hc
                   simp only [opt, ↓reduceIte, List.nil_append]
                   exact release_rep hv.params (fatRep_perm p (by simpa using h.rep)) hc
+              have hs1h : HintOK v.p v.bound (if n.chain = [] then s else release v s n.chain).fat
+                  (if n.chain = [] then s else release v s n.chain).hint := by
+                split
+                · exact h.hintOK
+                · exact release_hint n.chain h.hintOK
               have hs1n : (if n.chain = [] then s else release v s n.chain).nodes = s.nodes := by split <;> rfl
               have hs1r : (if n.chain = [] then s else release v s n.chain).rootChain = s.rootChain := by split <;> rfl
               have hs1d : (if n.chain = [] then s else release v s n.chain).disk = s.disk := by split <;> rfl
-              generalize (if n.chain = [] then s else release v s n.chain) = s1 at hrep hs1n hs1r hs1d
+              generalize (if n.chain = [] then s else release v s n.chain) = s1 at hrep hs1n hs1r hs1d hs1h
               have hx := invX_replace_file h n ⟨n.path, n.parent, n.key, false, [], 0, n.slots⟩ hn hnd'
-                ⟨rfl, rfl, rfl, hnd'.symm, rfl, fun hd => by rw [hnd'] at hd; cases hd⟩ s1.fat s1.hint hrep
+                ⟨rfl, rfl, rfl, hnd'.symm, rfl, fun hd => by rw [hnd'] at hd; cases hd⟩ s1.fat s1.hint hrep hs1h
               rw [updateDir_irrel, hs1n]
               have hx' : InvX v count { s1 with nodes := replaceNode s.nodes n ⟨n.path, n.parent, n.key, false, [], 0, n.slots⟩ } none [] := by
-                refine hx.congr rfl ?_ rfl
+                refine hx.congr rfl rfl ?_ rfl
                 exact hs1r
               have hloc : HLoc (replaceNode s.nodes n ⟨n.path, n.parent, n.key, false, [], 0, n.slots⟩) ploc :=
                 (hloc_of_locAt hl hpd).mono (fun d hd hdd => mem_replace_of hd (by
@@ -752,6 +761,7 @@ theorem makedir_good {v : Vol} {count : Nat} (hv : VolOK v count) {s : St} (h : 
             have hfr := fresh_clusters inv2 _ hclus
             have hx := invX_append hv h ⟨dir ++ [k], ploc.id, k, true, r.clusters, 0, slots⟩ ploc dir hl hpd rfl rfl
               (find_none_fresh hf) r.fat r.hint (by rw [opt_of_ne hcne]; exact inv2)
+              (alloc_hint hv.params h.hintOK ha (Or.inl (inv2.chain r.clusters (by simp))))
               (fun _ => ⟨hcne, by
                 have : 1 ≤ r.clusters.length := by
                   rcases Nat.eq_zero_or_pos r.clusters.length with e | e
@@ -767,7 +777,9 @@ theorem makedir_good {v : Vol} {count : Nat} (hv : VolOK v count) {s : St} (h : 
             · -- the parent could not be written: the new cluster is released again
               refine ⟨?_, fun _ => ⟨rfl, rfl⟩, fun hs => ?_, fun hsh => hsh⟩
               · have := free_preserves hv.params inv2
-                exact ⟨h.tree, by simpa [release] using this, h.rootFixed, h.rootChain, h.dirs, h.fitsRoot, h.fitsDir⟩
+                exact ⟨h.tree, by simpa [release] using this,
+                  release_hint r.clusters (alloc_hint hv.params h.hintOK ha (Or.inl (inv2.chain r.clusters (by simp)))),
+                  h.rootFixed, h.rootChain, h.dirs, h.fitsRoot, h.fitsDir⟩
               · have hbl : v.bound ≤ s.fat.length := by
                   have h1 := hv.bound
                   have h2 := h.rep.len
@@ -777,7 +789,7 @@ theorem makedir_good {v : Vol} {count : Nat} (hv : VolOK v count) {s : St} (h : 
                 rw [alloc_release_cancel ha hbl]
                 exact hs.fat
             · rename_i s2 hu
-              have := (updateDir_inv hv (hx.congr rfl rfl rfl)
+              have := (updateDir_inv hv (hx.congr rfl rfl rfl rfl)
                 ((hloc_of_locAt hl hpd).mono (fun d hd _ => List.mem_append_left _ hd)) hu).1
               exact ⟨flush_inv this, fun hs => absurd hs (not_soft_ok _),
                 fun hs => sync_flush_update hs (by rfl) hu (others_append s.nodes ⟨dir ++ [k], ploc.id, k, true, r.clusters, 0, slots⟩ ploc.id rfl),
@@ -867,15 +879,16 @@ theorem removedir_good {v : Vol} {count : Nat} (hv : VolOK v count) {s : St} (h 
 theorem replace_then_update {v : Vol} {count : Nat} {s : St} (h : Inv v count s) (f f' : Node) (hf : f ∈ s.nodes)
     (hfd : f.isDir = false) (hs' : SameSkel f' f) (s1 : St) (e2 : s1.rootChain = s.rootChain) (e3 : s1.nodes = s.nodes)
     (hrep : FatRep v.p count s1.fat (opt f'.chain ++ own s.rootChain (s.nodes.erase f)))
+    (hh : HintOK v.p v.bound s1.fat s1.hint)
     (ploc : Loc) (hloc : HLoc s.nodes ploc) (e4 : s1.disk = s.disk) (hpar : f.parent = ploc.id)
     (hsf : ShapeNodes v.bpc s.nodes → Shape v.bpc f') :
     ∃ s2, updateDir v s1 (replaceNode s1.nodes f f') ploc = .ok s2 ∧ Inv v count (flush s2) ∧ (Sync s → Sync (flush s2)) ∧
       (ShapeNodes v.bpc s.nodes → ShapeNodes v.bpc (flush s2).nodes) := by
   have hfd' : ∀ d, d ∈ s.nodes → d.isDir = true → d ≠ f := by
     intro d _ hdd e; rw [e, hfd] at hdd; cases hdd
-  have hx := invX_replace_file h f f' hf hfd hs' s1.fat s1.hint hrep
+  have hx := invX_replace_file h f f' hf hfd hs' s1.fat s1.hint hrep hh
   rw [updateDir_irrel, e3]
-  have hx' : InvX v count { s1 with nodes := replaceNode s.nodes f f' } none [] := hx.congr rfl e2 rfl
+  have hx' : InvX v count { s1 with nodes := replaceNode s.nodes f f' } none [] := hx.congr rfl rfl e2 rfl
   have hloc' : HLoc (replaceNode s.nodes f f') ploc := hloc.mono (fun d hd hdd => mem_replace_of hd (hfd' d hd hdd))
   obtain ⟨s2, hu, hi2, _, _, _, en, _⟩ := updateDir_fits_good hx' hloc'
   refine ⟨s2, hu, flush_inv hi2, fun hs => sync_flush_update hs e4 hu (others_replace _ _ _ _ hpar (by rw [hs'.2.1]; exact hpar)), ?_⟩
@@ -911,7 +924,10 @@ theorem fwrite_good {v : Vol} {count : Nat} (hv : VolOK v count) {s : St} (h : I
             have hrep := writeChain_rep hv (fatRep_perm (own_erase s.rootChain hf) (by simpa using h.rep)) (by omega) hw
             obtain ⟨s2, hu, hi2, hsy, hshp⟩ := replace_then_update h f { f with chain := chain, size := max f.size (min pos f.size + n) } hf hfd'
               ⟨rfl, rfl, rfl, rfl, rfl, fun hd => by rw [hfd'] at hd; cases hd⟩
-              { s with fat := fat, hint := hint } rfl rfl hrep ploc (hloc_of_locAt hl hpd) rfl hpar
+              { s with fat := fat, hint := hint } rfl rfl hrep
+              (writeChain_hint hv.params hv.bound (by have := hv.bpc; omega)
+                (fatRep_perm (own_erase s.rootChain hf) (by simpa using h.rep)) h.hintOK (by omega) hw)
+              ploc (hloc_of_locAt hl hpd) rfl hpar
               (fun hsh => by
                 have hb0 : 0 < v.bpc := by have := hv.bpc; omega
                 obtain ⟨h1, h2⟩ := writeChain_len hv.params hv.bound hb0
@@ -958,7 +974,9 @@ theorem ftrunc_good {v : Vol} {count : Nat} (hv : VolOK v count) {s : St} (h : I
             have hrep := writeChain_rep hv hown (by omega) hw
             obtain ⟨s2, hu, hi2, hsy, hshp⟩ := replace_then_update h f { f with chain := chain, size := m } hf hfd'
               ⟨rfl, rfl, rfl, rfl, rfl, fun hd => by rw [hfd'] at hd; cases hd⟩
-              { s with fat := fat, hint := hint } rfl rfl hrep ploc (hloc_of_locAt hl hpd) rfl hpar
+              { s with fat := fat, hint := hint } rfl rfl hrep
+              (writeChain_hint hv.params hv.bound (by have := hv.bpc; omega) hown h.hintOK (by omega) hw)
+              ploc (hloc_of_locAt hl hpd) rfl hpar
               (fun hsh => by
                 have hb0 : 0 < v.bpc := by have := hv.bpc; omega
                 obtain ⟨h1, h2⟩ := writeChain_len hv.params hv.bound hb0 hown (hsh f hf hfd') (by omega) hw
@@ -997,7 +1015,11 @@ theorem ftrunc_good {v : Vol} {count : Nat} (hv : VolOK v count) {s : St} (h : I
                 ⟨rfl, rfl, rfl, rfl, rfl, fun hd => by rw [hfd'] at hd; cases hd⟩
                 (flush { s with fat := (freeList v.p.cv.free s.fat (List.drop (max 1 (numClus v.bpc m)) f.chain)).set l v.p.cv.eocMax,
                                 hint := lowerHint s.hint (List.drop (max 1 (numClus v.bpc m)) f.chain) }) rfl rfl
-                (by rw [opt_of_ne hkne]; exact hrep) ploc (hloc_of_locAt hl hpd) rfl hpar
+                (by rw [opt_of_ne hkne]; exact hrep)
+                (trunc_hint hv.params _ l (by
+                  have hch := hown'.chain (List.take (max 1 (numClus v.bpc m)) f.chain ++ List.drop (max 1 (numClus v.bpc m)) f.chain) (by simp)
+                  exact hch.inTable l (List.mem_append_left _ (List.mem_of_getLast? hgl))) h.hintOK)
+                ploc (hloc_of_locAt hl hpd) rfl hpar
                 (fun hsh => by
                   have := trunc_len v.bpc hb0 f m (hsh f hf hfd') hmle
                   simpa only [hcut, and_self, ↓reduceIte] using this)
@@ -1005,7 +1027,7 @@ theorem ftrunc_good {v : Vol} {count : Nat} (hv : VolOK v count) {s : St} (h : I
               exact ⟨hi2, fun hs => absurd hs (not_soft_ok _), hsy, hshp⟩
           · simp only [hcut, ↓reduceIte]
             obtain ⟨s2, hu, hi2, hsy, hshp⟩ := replace_then_update h f { f with chain := f.chain, size := m } hf hfd'
-              ⟨rfl, rfl, rfl, rfl, rfl, fun hd => by rw [hfd'] at hd; cases hd⟩ s rfl rfl hown ploc (hloc_of_locAt hl hpd) rfl hpar
+              ⟨rfl, rfl, rfl, rfl, rfl, fun hd => by rw [hfd'] at hd; cases hd⟩ s rfl rfl hown h.hintOK ploc (hloc_of_locAt hl hpd) rfl hpar
               (fun hsh => by
                 have := trunc_len v.bpc hb0 f m (hsh f hf hfd') hmle
                 simpa only [hcut, ↓reduceIte] using this)
